@@ -736,4 +736,147 @@ theorem putKey_spec {h : Nat → Nat} {t : Table} (inv : DInv h t.data) (k : Nat
       simp only [] at hb ⊢
       exact insertNew_spec inv _ hno hv hb
 
+/-! ### iteration with `next` -/
+
+/-- keys of the buckets `i .. i+n-1`, in bucket order -/
+def keysFrom (data : Array Slot) (i n : Nat) : List Nat := (List.range' i n).filterMap (fun x => (slotAt data x).key)
+
+theorem keysFrom_succ (data : Array Slot) (i n : Nat) :
+    keysFrom data i (n + 1) = match (slotAt data i).key with
+      | none => keysFrom data (i + 1) n
+      | some k => k :: keysFrom data (i + 1) n := by
+  unfold keysFrom
+  rw [List.range'_succ, List.filterMap_cons]
+  cases (slotAt data i).key <;> rfl
+
+theorem nextFrom_spec (data : Array Slot) : ∀ (n i : Nat),
+    match nextFrom data i n with
+    | none => keysFrom data i n = []
+    | some k => ∃ j, i ≤ j ∧ j < i + n ∧ (slotAt data j).key = some k ∧
+        keysFrom data i n = k :: keysFrom data (j + 1) (i + n - (j + 1)) := by
+  intro n
+  induction n with
+  | zero => intro i; simp [nextFrom, keysFrom]
+  | succ n ih =>
+    intro i
+    unfold nextFrom
+    rw [keysFrom_succ]
+    cases hk : (slotAt data i).key with
+    | some k =>
+      simp only []
+      refine ⟨i, Nat.le_refl i, by omega, hk, ?_⟩
+      have : i + (n + 1) - (i + 1) = n := by omega
+      rw [this]
+    | none =>
+      simp only []
+      have := ih (i + 1)
+      cases hn : nextFrom data (i + 1) n with
+      | none => rw [hn] at this; exact this
+      | some k =>
+        rw [hn] at this
+        obtain ⟨j, h1, h2, h3, h4⟩ := this
+        refine ⟨j, by omega, by omega, h3, ?_⟩
+        rw [h4]
+        have : i + 1 + n - (j + 1) = i + (n + 1) - (j + 1) := by omega
+        rw [this]
+
+theorem keysFrom_length_le (data : Array Slot) (i n : Nat) : (keysFrom data i n).length ≤ n := by
+  unfold keysFrom
+  have := List.length_filterMap_le (fun x => (slotAt data x).key) (List.range' i n)
+  simpa using this
+
+theorem mem_keysFrom {data : Array Slot} {i n k : Nat} :
+    k ∈ keysFrom data i n ↔ ∃ x, i ≤ x ∧ x < i + n ∧ (slotAt data x).key = some k := by
+  unfold keysFrom
+  rw [List.mem_filterMap]
+  constructor
+  · rintro ⟨x, hx, hk⟩
+    rw [List.mem_range'_1] at hx
+    exact ⟨x, hx.1, hx.2, hk⟩
+  · rintro ⟨x, h1, h2, hk⟩
+    exact ⟨x, List.mem_range'_1.mpr ⟨h1, h2⟩, hk⟩
+
+theorem keysFrom_nodup {h : Nat → Nat} {data : Array Slot} (inv : DInv h data) : ∀ (n i : Nat), (keysFrom data i n).Nodup := by
+  intro n
+  induction n with
+  | zero => intro i; simp [keysFrom]
+  | succ n ih =>
+    intro i
+    rw [keysFrom_succ]
+    cases hk : (slotAt data i).key with
+    | none => exact ih (i + 1)
+    | some k =>
+      simp only []
+      refine List.nodup_cons.mpr ⟨?_, ih (i + 1)⟩
+      intro hm
+      obtain ⟨x, h1, _, hx⟩ := mem_keysFrom.mp hm
+      have := inv.nodup x i k hx hk
+      omega
+
+/-- repeated `next` from a key enumerates exactly the keys of the later buckets -/
+theorem iterNext_from {h : Nat → Nat} {data : Array Slot} (inv : DInv h data) :
+    ∀ (fuel k j : Nat), (slotAt data j).key = some k →
+      (keysFrom data (j + 1) (data.size - (j + 1))).length < fuel →
+      iterNext h data fuel (some k) = keysFrom data (j + 1) (data.size - (j + 1)) := by
+  intro fuel
+  induction fuel with
+  | zero => intro k j _ hl; omega
+  | succ fuel ih =>
+    intro k j hj hl
+    have hjs : j < data.size := key_some_lt hj
+    have hd : dictNext h data (some k) = nextFrom data (j + 1) (data.size - (j + 1)) := by
+      unfold dictNext
+      simp only [find_hit inv hj]
+    unfold iterNext
+    rw [hd]
+    have hs := nextFrom_spec data (data.size - (j + 1)) (j + 1)
+    cases hn : nextFrom data (j + 1) (data.size - (j + 1)) with
+    | none => rw [hn] at hs; rw [hs]
+    | some k' =>
+      rw [hn] at hs
+      obtain ⟨j', h1, h2, h3, h4⟩ := hs
+      simp only []
+      have e : j + 1 + (data.size - (j + 1)) - (j' + 1) = data.size - (j' + 1) := by omega
+      rw [e] at h4
+      rw [h4] at hl ⊢
+      rw [ih k' j' h3 (by simp at hl; omega)]
+
+/-- **iteration visits every key exactly once**: calling `next` from nil until it answers nil enumerates the keys
+in bucket order — a duplicate-free list whose members are exactly the keys with a non-nil `rawget` -/
+theorem iterNext_all {h : Nat → Nat} {data : Array Slot} (inv : DInv h data) :
+    iterNext h data (data.size + 1) none = keysOf data ∧ (keysOf data).Nodup ∧
+      ∀ k, k ∈ keysOf data ↔ rawgetD h data k ≠ vNil := by
+  have hko : keysOf data = keysFrom data 0 data.size := by
+    unfold keysOf keysFrom
+    rw [toList_eq_map, List.filterMap_map, List.range_eq_range']
+    rfl
+  rw [hko]
+  refine ⟨?_, keysFrom_nodup inv _ _, ?_⟩
+  · have hd : dictNext h data none = nextFrom data 0 data.size := rfl
+    unfold iterNext
+    rw [hd]
+    have hs := nextFrom_spec data data.size 0
+    cases hn : nextFrom data 0 data.size with
+    | none => rw [hn] at hs; rw [hs]
+    | some k' =>
+      rw [hn] at hs
+      obtain ⟨j', _, h2, h3, h4⟩ := hs
+      simp only []
+      have e : 0 + data.size - (j' + 1) = data.size - (j' + 1) := by omega
+      rw [e] at h4
+      rw [h4]
+      rw [iterNext_from inv data.size k' j' h3 (by
+        have := keysFrom_length_le data (j' + 1) (data.size - (j' + 1)); omega)]
+  · intro k
+    rw [mem_keysFrom]
+    constructor
+    · rintro ⟨x, _, _, hx⟩
+      rw [rawgetD_hit inv hx]
+      exact inv.live x k hx
+    · intro hne
+      by_cases hex : ∃ x, (slotAt data x).key = some k
+      · obtain ⟨x, hx⟩ := hex
+        exact ⟨x, Nat.zero_le x, by have := key_some_lt hx; omega, hx⟩
+      · exact absurd (rawgetD_miss (fun x hx => hex ⟨x, hx⟩)) hne
+
 end JanetModel.Table
